@@ -385,14 +385,13 @@ func tryReplay(cc *checkCtx, fnKey string, o *Obligation) *ReplayResult {
 	relaxed := stripQuantified(o.Decls+o.Query) + strings.Join(wf, "\n") + "\n"
 	// candidate model: first from the full query (z3 reports the model it was working on even when the
 	// answer is unknown because of the quantified axioms), then from the query without quantified axioms
-	r1 := candidateModel(o.Decls+o.Query+strings.Join(wf, "\n")+"\n", terms, 20*time.Second)
-	if r1.Values == nil || len(r1.Values) < len(terms) {
-		r1 = Solve(relaxed, terms, 20*time.Second, false)
-		if r1.Status != "sat" {
+	r1 := Solve(relaxed, terms, 20*time.Second, false)
+	if r1.Status != "sat" {
+		r1 = candidateModel(o.Decls+o.Query+strings.Join(wf, "\n")+"\n", terms, 20*time.Second)
+		if r1.Values == nil || len(r1.Values) < len(terms) {
 			res.Note = "no candidate model (relaxed query: " + r1.Status + ")"
 			return res
 		}
-	} else {
 		relaxed = o.Decls + o.Query + strings.Join(wf, "\n") + "\n"
 	}
 	for k, v := range r1.Values {
@@ -419,6 +418,7 @@ func tryReplay(cc *checkCtx, fnKey string, o *Obligation) *ReplayResult {
 				t := fmt.Sprintf("(select (sl.arr %s) %d)", r.path, i)
 				elemTerms = append(elemTerms, t)
 				elemOwner[t] = r.path
+				pin = append(pin, fmt.Sprintf("(assert (and (<= 0 %s) (<= %s 255)))", t, t))
 			}
 			if n.Sign() == 0 {
 				elems[r.path] = []string{}
